@@ -364,6 +364,15 @@ def _open_case(case, tdir):
     import logging
     logging.getLogger('ibllib').setLevel(logging.ERROR)
     logging.getLogger('spikeglx').setLevel(logging.ERROR)
+    if case.get('backend') == 'cbin':
+        # the compressed backend: same recording through mtscomp, chunks of a few samples so that selections straddle them
+        import mtscomp
+        fs = float(spikeglx._get_fs_from_meta(spikeglx.read_meta_data(b.with_suffix('.meta'))))
+        cb = b.with_suffix('.cbin')
+        mtscomp.compress(b, cb, b.with_suffix('.ch'), sample_rate=fs, n_channels=D.shape[1], dtype=np.int16,
+                         chunk_duration=int(case.get('chunk', 5)) / fs, check_after_compress=False, n_threads=1, quiet=True)
+        b.unlink()
+        b = cb
     return D, spikeglx.Reader(str(b) if (case.get('form') or {}).get('path') == 'str' else b)
 
 
@@ -666,8 +675,14 @@ def _gen_slice(rng, ns):
         a = int(rng.integers(0, ns)); return [a, None, None]
     if k == 3:
         a = int(rng.integers(0, ns)); b = int(rng.integers(a + 1, ns + 1)); return [a, b, int(rng.integers(2, 4))]
-    if k == 4:
-        return [-int(rng.integers(1, ns + 1)), None, None]
+    if k == 4:      # end-relative bounds: negative start, negative stop, both
+        u = rng.random()
+        if u < 0.4:
+            return [-int(rng.integers(1, ns + 1)), None, None]
+        if u < 0.7:
+            return [None if rng.random() < 0.5 else int(rng.integers(0, ns)), -int(rng.integers(1, ns + 1)), None]
+        a = int(rng.integers(1, ns + 1))
+        return [-a, -int(rng.integers(0, a)) or None, None]
     a = int(rng.integers(0, ns)); b = int(rng.integers(a + 1, ns + 1))
     return [a, b, None]
 
@@ -1003,6 +1018,9 @@ def correspondence(ctx):
         rcases.append(_gen_nidq_case(rng, default_args=bool(rng.random() < 0.35)))
     for _ in range(ctx.n(60, 600)):
         rcases.append(_gen_imec_case(rng))
+    for j, cse in enumerate(rcases):          # a third of the recordings are read through the compressed backend
+        if j % 3 == 1 and not (cse['slice'][2] or 0) < 0:
+            cse['backend'], cse['chunk'] = 'cbin', int(2 + j % 7)
     lines, impls = [], []
     for cse in rcases:
         tdir = tempfile.mkdtemp(prefix='c10_')
